@@ -1041,6 +1041,28 @@ def guards_at(fn, b):
     return norm
 
 
+def guards_imply_zero(gs, x, zero=True):
+    """do the guards establish x == 0 (zero=True) / x != 0 (zero=False)?  All spellings: an integer switch on x, `x == 0`,
+    `x != 0`, `x > 0` (canonicalised to != by val)"""
+    for c, tr in gs:
+        if not isinstance(c, tuple) or not c:
+            continue
+        if c == ("switchval", x) and isinstance(tr, int) and not isinstance(tr, bool):
+            if (tr == 0) == zero:
+                return True
+        if c == ("switchnot", x) and isinstance(tr, tuple) and 0 in tr and not zero:
+            return True
+        if c[0] == "bin" and c[1] in ("Eq", "Ne") and isinstance(tr, bool):
+            a, b_ = c[2], c[3]
+            if b_ == x:
+                a, b_ = b_, a
+            if a == x and isinstance(b_, tuple) and b_ and b_[0] == "const" and b_[2] == 0:
+                is_zero = tr if c[1] == "Eq" else (not tr)
+                if is_zero == zero:
+                    return True
+    return False
+
+
 def local_defs_with_guards(fn, l):
     """for a multi-def local: [(block, guards, value-expr)] per whole definition"""
     out = []
